@@ -12,7 +12,8 @@ fn leaf(name: &'static str) -> Expression {
 
 /// Operand shapes: 0 leaf, 1 `x INNER y`, 2 `-x`/`not x`/`#x`, 3 `if c then x else y`,
 /// 4 `x INNER (if c then y else z)` (an operand *ending* in an open if-expression),
-/// 5 `not (if ...)`, 6 `x INNER -y`, 7 `(x)`, 8 `-(x INNER if c then y else z)`.
+/// 5 `not (if ...)`, 6 `x INNER -y`, 7 `(x)`, 8 `-(x INNER if c then y else z)`,
+/// 9 `(x INNER2 y) INNER z`, 10 `x INNER (y INNER2 z)` (no Parenthese nodes: the writer decides).
 fn operand(group: u8, shape: u8, inner: u8, unary: u8) -> Expression {
     // `group` is a constant of each harness: only its shapes are ever constructed
     match group {
@@ -39,6 +40,23 @@ fn operand(group: u8, shape: u8, inner: u8, unary: u8) -> Expression {
             ),
         )
         .into(),
+        // three-level operands: `unary` doubles as the second inner operator (0..16)
+        4 => match shape {
+            // `(x INNER2 y) INNER z`: binary whose LEFT spine is binary
+            9 => BinaryExpression::new(
+                binary_operator(inner),
+                BinaryExpression::new(binary_operator(unary), leaf("x"), leaf("y")),
+                leaf("z"),
+            )
+            .into(),
+            // `x INNER (y INNER2 z)`: binary whose RIGHT spine is binary
+            _ => BinaryExpression::new(
+                binary_operator(inner),
+                leaf("x"),
+                BinaryExpression::new(binary_operator(unary), leaf("y"), leaf("z")),
+            )
+            .into(),
+        },
         _ => match shape {
             3 => IfExpression::new(leaf("c"), leaf("x"), leaf("y")).into(),
             4 => BinaryExpression::new(
@@ -61,6 +79,7 @@ fn assume_group<S: Source>(s: &mut S, group: u8, shape: u8) {
         0 => s.assume(shape == 0 || shape == 1 || shape == 7),
         1 => s.assume(shape == 2 || shape == 6),
         3 => s.assume(shape == 8),
+        4 => s.assume(shape == 9 || shape == 10),
         _ => s.assume(shape == 3 || shape == 4 || shape == 5),
     }
 }
@@ -76,6 +95,9 @@ fn left_operand_survives(shape: u8, inner: u8, outer: u8) -> bool {
         2 => !(priority(outer).0 > UNARY_PRIORITY),
         // an if-expression's else branch extends as far as possible
         3 | 4 | 5 => false,
+        // three-level operands (written correctly at their own level): precedence is a total
+        // preorder, so the pair (INNER, OUTER) decides
+        9 | 10 => parses_as_left_nested(inner, outer),
         // `-(x INNER if ...)`: the unary writer closes a binary operand in parentheses unless the
         // operator binds tighter than unary operators (`^`): `-x ^ if c then y else z OUTER w`
         8 => !(priority(inner).0 > UNARY_PRIORITY),
@@ -90,7 +112,7 @@ fn right_operand_survives(shape: u8, inner: u8, outer: u8) -> bool {
     match shape {
         // `x OUTER a INNER b` (also when `b` is `-y` or an if-expression: they only extend to
         // the right)
-        1 | 4 | 6 => parses_as_right_nested(outer, inner),
+        1 | 4 | 6 | 9 | 10 => parses_as_right_nested(outer, inner),
         // leaf, unary, if-expression, parenthese: everything to the right belongs to them
         _ => true,
     }
@@ -99,7 +121,7 @@ fn right_operand_survives(shape: u8, inner: u8, outer: u8) -> bool {
 /// H-C02-prec-left
 fn prec_left<S: Source>(s: &mut S, group: u8) {
     let (outer, inner, unary, shape) = (s.any_u8(), s.any_u8(), s.any_u8(), s.any_u8());
-    s.assume(outer < 16 && inner < 16 && unary < 3 && shape < 9);
+    s.assume(outer < 16 && inner < 16 && shape < 11 && (unary < 3 || (group == 4 && unary < 16)));
     assume_group(s, group, shape);
     let left = operand(group, shape, inner, unary);
     let emitted = binary_operator(outer).left_needs_parentheses(&left);
@@ -110,7 +132,7 @@ fn prec_left<S: Source>(s: &mut S, group: u8) {
     observe!(group != 1 || (emitted && shape == 2), "a unary left operand of `^` gets parentheses");
     observe!(group < 2 || emitted, "an if-expression operand gets parentheses");
     match shape {
-        1 => claim!(s, emitted || !required, "left binary operand: parentheses whenever the grammar would regroup `x INNER y OUTER z`"),
+        1 | 9 | 10 => claim!(s, emitted || !required, "left binary operand: parentheses whenever the grammar would regroup `x INNER y OUTER z`"),
         2 | 6 => claim!(s, emitted || !required, "left operand ending in a unary expression: parentheses whenever OUTER binds tighter than unary operators"),
         3 | 4 | 5 | 8 => claim!(s, emitted || !required, "left operand ending in an open if-expression is always parenthesised"),
         _ => claim!(s, emitted || !required, "left leaf operand needs no parentheses"),
@@ -134,7 +156,7 @@ pub fn prec_left_unary_binary_if<S: Source>(s: &mut S) {
 /// H-C02-prec-right
 fn prec_right<S: Source>(s: &mut S, group: u8) {
     let (outer, inner, unary, shape) = (s.any_u8(), s.any_u8(), s.any_u8(), s.any_u8());
-    s.assume(outer < 16 && inner < 16 && unary < 3 && shape < 9);
+    s.assume(outer < 16 && inner < 16 && shape < 11 && (unary < 3 || (group == 4 && unary < 16)));
     assume_group(s, group, shape);
     let right = operand(group, shape, inner, unary);
     let emitted = binary_operator(outer).right_needs_parentheses(&right);
@@ -147,6 +169,12 @@ fn prec_right<S: Source>(s: &mut S, group: u8) {
     core::mem::forget(right);
 }
 
+pub fn prec_left_nested<S: Source>(s: &mut S) {
+    prec_left(s, 4)
+}
+pub fn prec_right_nested<S: Source>(s: &mut S) {
+    prec_right(s, 4)
+}
 pub fn prec_right_binary<S: Source>(s: &mut S) {
     prec_right(s, 0)
 }
@@ -187,6 +215,8 @@ crate::proof!(#[kani::unwind(5)] c02_prec_left_binary => prec_left_binary);
 crate::proof!(#[kani::unwind(5)] c02_prec_left_unary => prec_left_unary);
 crate::proof!(#[kani::unwind(5)] c02_prec_left_if => prec_left_if);
 crate::proof!(#[kani::unwind(5)] c02_prec_left_unary_binary_if => prec_left_unary_binary_if);
+crate::proof!(#[kani::unwind(5)] c02_prec_left_nested => prec_left_nested);
+crate::proof!(#[kani::unwind(5)] c02_prec_right_nested => prec_right_nested);
 crate::proof!(#[kani::unwind(5)] c02_prec_right_binary => prec_right_binary);
 crate::proof!(#[kani::unwind(5)] c02_prec_right_unary => prec_right_unary);
 crate::proof!(#[kani::unwind(5)] c02_prec_right_if => prec_right_if);
